@@ -52,6 +52,7 @@ type SpecFunc struct {
 	Body   *Spec
 	Text   string
 	Rec    bool
+	Uninterp bool
 	Pkg    string
 	File   string
 	Line   int
@@ -111,6 +112,7 @@ type ContractSet struct {
 	Axioms    []*Axiom
 	Lemmas    []*Lemma
 	Ghosts    map[string]*GhostField // pkg.T.$name
+	ByRef     map[string]bool        // pkg.T
 	Files     []string
 	Scan      []string // mechanically scanned assumptions (trusted / axiom lines)
 }
@@ -172,7 +174,7 @@ func splitHead(s string) (name, params, rest string, err error) {
 }
 
 func LoadContracts(repo string, pkgDirs map[string]string) (*ContractSet, error) {
-	cs := &ContractSet{Contracts: map[string]*Contract{}, Specs: map[string]*SpecFunc{}, Ghosts: map[string]*GhostField{}}
+	cs := &ContractSet{Contracts: map[string]*Contract{}, Specs: map[string]*SpecFunc{}, Ghosts: map[string]*GhostField{}, ByRef: map[string]bool{}}
 	var pkgs []string
 	for p := range pkgDirs {
 		pkgs = append(pkgs, p)
@@ -315,6 +317,28 @@ func (cs *ContractSet) loadFile(pkg, file string) error {
 				curLemma.Pattern = e.Args
 			}
 			continue
+		case "uf":
+			// uninterpreted spec function: uf name(p sort, ...) sort
+			name, params, r, err := splitHead(rest)
+			if err != nil {
+				return fail(err)
+			}
+			pd, err := parseParams(params)
+			if err != nil {
+				return fail(err)
+			}
+			if _, dup := cs.Specs[name]; dup {
+				return fail(fmt.Errorf("duplicate spec %s", name))
+			}
+			cs.Specs[name] = &SpecFunc{Name: name, Params: pd, Ret: strings.TrimSpace(r), Rec: true, Uninterp: true, Pkg: pkg, File: file, Line: rl.line}
+			cur = nil
+		case "byref":
+			// struct type whose slice elements are addressed (&s[i] escapes):
+			// elements are modelled as objects with identity
+			for _, tn := range strings.Fields(rest) {
+				cs.ByRef[pkg+"."+tn] = true
+			}
+			cur = nil
 		case "ghost":
 			f := strings.SplitN(rest, " ", 2)
 			if len(f) != 2 {
